@@ -133,4 +133,295 @@ example : selectedSites [[65, 67, 45, 97], [65, 67, 71, 116]] true = [true, true
 example : pairList 3 (-1) (-1) (-1) (-1) = some [(0, 1), (0, 2), (1, 2)] := by decide
 example : pairList 3 0 1 1 5 = some [(0, 1), (0, 2), (1, 2)] := by decide
 
+/-! ## Part 2 — the regenerated estimators over ℝ
+
+`Gv.Gen.*Distance` is the Go code of the working tree (tie T2).  Every proof below follows one
+script that never mentions the generated text: unfold, move to ordinary real arithmetic, normalise
+the hypotheses and the goal with `ring_nf` so that a guard `if !(arg > 0)` (repaired source) is
+discharged by the domain hypotheses, remove the clamp `if dist > 0` (where the source has one)
+with the non-negativity of the published value, finish with `field_simp; ring`. -/
+
+section real
+set_option linter.unusedSimpArgs false
+set_option linter.unreachableTactic false
+set_option linter.unusedTactic false
+set_option linter.unusedVariables false
+
+/-- last steps of every proof: remove the clamp (if any) using `0 ≤ published value`, then algebra -/
+local macro "est_close" hS:ident : tactic => `(tactic|
+  (first
+     | refine clamp_congr ?_ $hS
+     | skip
+   try ring_nf
+   try (field_simp; ring)))
+
+/-- guard (if any) and Boolean plumbing -/
+local macro "est_guard" "[" hs:Lean.Parser.Tactic.simpLemma,* "]" : tactic => `(tactic|
+  try simp only [$hs,*, decide_true, decide_false, Bool.not_true, Bool.not_false, Bool.and_self, Bool.or_self,
+    Bool.and_true, Bool.true_and, Bool.or_false, Bool.false_or, Bool.false_eq_true, if_false, if_true,
+    decide_eq_true_eq])
+
+/-- JC69: on `0 ≤ p < 3/4` the code computes `-(3/4) ln(1 - 4p/3)` (Jukes & Cantor 1969) -/
+theorem jc_eq_published (a d t : ℝ) (hd : 0 ≤ d) (ht : 0 < t) (hp : d / t < 3 / 4) :
+    Gen.jcDistance false a d t = jc69 (d / t) := by
+  have hp0 : 0 ≤ d / t := div_nonneg hd ht.le
+  have hS : 0 ≤ jc69 (d / t) := le_trans hp0 (jcS_ge false one_pos hp)
+  have hb : 0 < 1 - 4 / 3 * (d / t) := by linarith
+  unfold Gen.jcDistance
+  unfold jc69 at *
+  real_like at *
+  simp only [Bool.false_eq_true, if_false, if_true, decide_eq_true_eq] at *
+  all_goals ring_nf at hb hS ⊢
+  all_goals est_guard [hb]
+  all_goals est_close hS
+
+/-- JC69 with gamma rates (Jin & Nei 1990) -/
+theorem jc_gamma_eq_published (a d t : ℝ) (ha : 0 < a) (hd : 0 ≤ d) (ht : 0 < t) (hp : d / t < 3 / 4) :
+    Gen.jcDistance true a d t = jc69Gamma a (d / t) := by
+  have hp0 : 0 ≤ d / t := div_nonneg hd ht.le
+  have hS : 0 ≤ jc69Gamma a (d / t) := le_trans hp0 (jcS_ge true ha hp)
+  have hb : 0 < 1 - 4 / 3 * (d / t) := by linarith
+  unfold Gen.jcDistance
+  unfold jc69Gamma at *
+  real_like at *
+  simp only [Bool.false_eq_true, if_false, if_true, decide_eq_true_eq] at *
+  all_goals ring_nf at hb hS ⊢
+  all_goals est_guard [hb]
+  all_goals est_close hS
+
+/-- non-vacuity of the JC69 domain: 3 differences out of 10 sites -/
+example : (0 : ℝ) ≤ 3 ∧ (0 : ℝ) < 10 ∧ (3 : ℝ) / 10 < 3 / 4 := by norm_num
+
+/-- K2P / K80 (Kimura 1980) on its domain `1 - 2P - Q > 0`, `1 - 2Q > 0` -/
+theorem k2p_eq_published (a trS trV t : ℝ) (hP : 0 ≤ trS) (hQ : 0 ≤ trV) (ht : 0 < t)
+    (h1 : 0 < 1 - 2 * (trS / t) - trV / t) (h2 : 0 < 1 - 2 * (trV / t)) :
+    Gen.k2pDistance false a trS trV t = k80 (trS / t) (trV / t) := by
+  have hP0 : 0 ≤ trS / t := div_nonneg hP ht.le
+  have hQ0 : 0 ≤ trV / t := div_nonneg hQ ht.le
+  have hS : 0 ≤ k80 (trS / t) (trV / t) := le_trans (by linarith) (k80S_ge false one_pos h1 h2)
+  unfold Gen.k2pDistance
+  unfold k80 at *
+  real_like at *
+  simp only [Bool.false_eq_true, if_false, if_true, decide_eq_true_eq] at *
+  all_goals ring_nf at h1 h2 hS ⊢
+  all_goals est_guard [h1, h2]
+  all_goals est_close hS
+
+/-- K2P with gamma rates -/
+theorem k2p_gamma_eq_published (a trS trV t : ℝ) (ha : 0 < a) (hP : 0 ≤ trS) (hQ : 0 ≤ trV) (ht : 0 < t)
+    (h1 : 0 < 1 - 2 * (trS / t) - trV / t) (h2 : 0 < 1 - 2 * (trV / t)) :
+    Gen.k2pDistance true a trS trV t = k80Gamma a (trS / t) (trV / t) := by
+  have hP0 : 0 ≤ trS / t := div_nonneg hP ht.le
+  have hQ0 : 0 ≤ trV / t := div_nonneg hQ ht.le
+  have hS : 0 ≤ k80Gamma a (trS / t) (trV / t) := le_trans (by linarith) (k80S_ge true ha h1 h2)
+  unfold Gen.k2pDistance
+  unfold k80Gamma at *
+  real_like at *
+  simp only [Bool.false_eq_true, if_false, if_true, decide_eq_true_eq] at *
+  all_goals ring_nf at h1 h2 hS ⊢
+  all_goals est_guard [h1, h2]
+  all_goals est_close hS
+
+/-- F81 (Tajima & Nei 1984): `InitModel`'s `b1` is `1 - Σ πi²` and `Distance` is `-b ln(1 - p/b)` -/
+theorem f81_eq_published (a πA πC πG πT d t : ℝ) (hd : 0 ≤ d) (ht : 0 < t)
+    (hb : 0 < tajimaNeiB πA πC πG πT) (h1 : 0 < 1 - d / t / tajimaNeiB πA πC πG πT) :
+    Gen.f81Distance false a (Gen.f81Init πA πC πG πT) d t = f81 πA πC πG πT (d / t) := by
+  have hp0 : 0 ≤ d / t := div_nonneg hd ht.le
+  have hS : 0 ≤ f81 πA πC πG πT (d / t) := le_trans hp0 (f81S_ge false one_pos hb h1)
+  unfold Gen.f81Distance Gen.f81Init
+  unfold f81 tajimaNeiB at *
+  real_like at *
+  simp only [Bool.false_eq_true, if_false, if_true, decide_eq_true_eq] at *
+  all_goals ring_nf at h1 hS ⊢
+  all_goals est_guard [h1]
+  all_goals est_close hS
+
+/-- F81 with gamma rates -/
+theorem f81_gamma_eq_published (a πA πC πG πT d t : ℝ) (ha : 0 < a) (hd : 0 ≤ d) (ht : 0 < t)
+    (hb : 0 < tajimaNeiB πA πC πG πT) (h1 : 0 < 1 - d / t / tajimaNeiB πA πC πG πT) :
+    Gen.f81Distance true a (Gen.f81Init πA πC πG πT) d t = f81Gamma a πA πC πG πT (d / t) := by
+  have hp0 : 0 ≤ d / t := div_nonneg hd ht.le
+  have hS : 0 ≤ f81Gamma a πA πC πG πT (d / t) := le_trans hp0 (f81S_ge true ha hb h1)
+  unfold Gen.f81Distance Gen.f81Init
+  unfold f81Gamma tajimaNeiB at *
+  real_like at *
+  simp only [Bool.false_eq_true, if_false, if_true, decide_eq_true_eq] at *
+  all_goals ring_nf at h1 hS ⊢
+  all_goals est_guard [h1]
+  all_goals est_close hS
+
+/-- F84 (Felsenstein 1984 as in PHYLIP's dnadist): `InitModel`'s `a, b, c` are the published `A, B, C`
+and `Distance` is the published two-logarithm formula.  (`Σπ = 1` is only used to know that the
+published value is non-negative, which matters once the source clamps negative rounding noise.) -/
+theorem f84_eq_published (a πA πC πG πT trS trV t : ℝ) (hA : 0 < πA) (hC : 0 < πC) (hG : 0 < πG) (hT : 0 < πT)
+    (hsum : πA + πC + πG + πT = 1) (hP : 0 ≤ trS) (hQ : 0 ≤ trV) (ht : 0 < t)
+    (h1 : 0 < 1 - trS / t / (2 * f84A πA πC πG πT)
+            - (f84A πA πC πG πT - f84B πA πC πG πT) * (trV / t) / (2 * f84A πA πC πG πT * f84C πA πC πG πT))
+    (h2 : 0 < 1 - trV / t / (2 * f84C πA πC πG πT)) :
+    Gen.f84Distance false a (Gen.f84Init πA πC πG πT).1 (Gen.f84Init πA πC πG πT).2.1 (Gen.f84Init πA πC πG πT).2.2
+      trS trV t = f84 πA πC πG πT (trS / t) (trV / t) := by
+  have hP0 : 0 ≤ trS / t := div_nonneg hP ht.le
+  have hQ0 : 0 ≤ trV / t := div_nonneg hQ ht.le
+  have hS : 0 ≤ f84 πA πC πG πT (trS / t) (trV / t) :=
+    le_trans (by linarith) (f84S_ge false one_pos hA hC hG hT hsum h1 h2)
+  have hR : πA + πG ≠ 0 := by positivity
+  have hY : πC + πT ≠ 0 := by positivity
+  have hAne : πC * πT * (πA + πG) + πA * πG * (πC + πT) ≠ 0 := by positivity
+  have htne : t ≠ 0 := ne_of_gt ht
+  unfold Gen.f84Distance Gen.f84Init
+  unfold f84 f84A f84B f84C at *
+  real_like at *
+  simp only [Bool.false_eq_true, if_false, if_true, decide_eq_true_eq] at *
+  all_goals ring_nf at h1 h2 hS ⊢
+  all_goals est_guard [h1, h2]
+  all_goals est_close hS
+
+/-- F84 with gamma rates -/
+theorem f84_gamma_eq_published (a πA πC πG πT trS trV t : ℝ) (ha : 0 < a)
+    (hA : 0 < πA) (hC : 0 < πC) (hG : 0 < πG) (hT : 0 < πT)
+    (hsum : πA + πC + πG + πT = 1) (hP : 0 ≤ trS) (hQ : 0 ≤ trV) (ht : 0 < t)
+    (h1 : 0 < 1 - trS / t / (2 * f84A πA πC πG πT)
+            - (f84A πA πC πG πT - f84B πA πC πG πT) * (trV / t) / (2 * f84A πA πC πG πT * f84C πA πC πG πT))
+    (h2 : 0 < 1 - trV / t / (2 * f84C πA πC πG πT)) :
+    Gen.f84Distance true a (Gen.f84Init πA πC πG πT).1 (Gen.f84Init πA πC πG πT).2.1 (Gen.f84Init πA πC πG πT).2.2
+      trS trV t = f84Gamma a πA πC πG πT (trS / t) (trV / t) := by
+  have hP0 : 0 ≤ trS / t := div_nonneg hP ht.le
+  have hQ0 : 0 ≤ trV / t := div_nonneg hQ ht.le
+  have hS : 0 ≤ f84Gamma a πA πC πG πT (trS / t) (trV / t) :=
+    le_trans (by linarith) (f84S_ge true ha hA hC hG hT hsum h1 h2)
+  have hR : πA + πG ≠ 0 := by positivity
+  have hY : πC + πT ≠ 0 := by positivity
+  have hAne : πC * πT * (πA + πG) + πA * πG * (πC + πT) ≠ 0 := by positivity
+  have htne : t ≠ 0 := ne_of_gt ht
+  unfold Gen.f84Distance Gen.f84Init
+  unfold f84Gamma f84A f84B f84C at *
+  real_like at *
+  simp only [Bool.false_eq_true, if_false, if_true, decide_eq_true_eq] at *
+  all_goals ring_nf at h1 h2 hS ⊢
+  all_goals est_guard [h1, h2]
+  all_goals est_close hS
+
+/-- TN93 (Tamura & Nei 1993, eq. 7) on its domain, for positive base frequencies -/
+theorem tn93_eq_published (a πA πC πG πT trS trV p1 p2 t : ℝ)
+    (hA : 0 < πA) (hC : 0 < πC) (hG : 0 < πG) (hT : 0 < πT)
+    (ht : 0 < t) (h1 : 0 ≤ p1) (h2 : 0 ≤ p2) (hv : 0 ≤ trV)
+    (he1 : 0 < tn93E1 πA πC πG πT (trV / t)) (he2 : 0 < tn93E2 πA πC πG πT (p1 / t) (trV / t))
+    (he3 : 0 < tn93E3 πA πC πG πT (p2 / t) (trV / t)) :
+    Gen.tn93Distance false a πA πC πG πT trS trV p1 p2 t = tn93 πA πC πG πT (p1 / t) (p2 / t) (trV / t) := by
+  have hS : 0 ≤ tn93 πA πC πG πT (p1 / t) (p2 / t) (trV / t) := by
+    rw [tn93S_eq_nl 1]
+    have := tn93_combo_ge false one_pos hA hC hG hT he1 he2 he3
+    have : 0 ≤ p1 / t + p2 / t + trV / t := by positivity
+    linarith
+  have hR : πA + πG ≠ 0 := by positivity
+  have hY : πC + πT ≠ 0 := by positivity
+  have hsum' : πA * πG + πC * πT ≠ 0 := by positivity
+  unfold Gen.tn93Distance
+  unfold tn93 tn93E1 tn93E2 tn93E3 at *
+  real_like at *
+  simp only [Bool.false_eq_true, if_false, if_true, decide_eq_true_eq] at *
+  all_goals ring_nf at he1 he2 he3 hS ⊢
+  all_goals est_guard [he1, he2, he3]
+  all_goals est_close hS
+
+/-- TN93 with gamma rates (the constant term of the published form uses `Σπ = 1`) -/
+theorem tn93_gamma_eq_published (a πA πC πG πT trS trV p1 p2 t : ℝ) (ha : 0 < a)
+    (hA : 0 < πA) (hC : 0 < πC) (hG : 0 < πG) (hT : 0 < πT) (hsum : πA + πC + πG + πT = 1)
+    (ht : 0 < t) (h1 : 0 ≤ p1) (h2 : 0 ≤ p2) (hv : 0 ≤ trV)
+    (he1 : 0 < tn93E1 πA πC πG πT (trV / t)) (he2 : 0 < tn93E2 πA πC πG πT (p1 / t) (trV / t))
+    (he3 : 0 < tn93E3 πA πC πG πT (p2 / t) (trV / t)) :
+    Gen.tn93Distance true a πA πC πG πT trS trV p1 p2 t = tn93Gamma a πA πC πG πT (p1 / t) (p2 / t) (trV / t) := by
+  have hR : πA + πG ≠ 0 := by positivity
+  have hY : πC + πT ≠ 0 := by positivity
+  rw [tn93GammaS_eq_nl a _ _ _ _ _ _ _ hR hY hsum]
+  have hS : 0 ≤ tnK1 πA πG * nl true a (tn93E2 πA πC πG πT (p1 / t) (trV / t))
+      + tnK2 πC πT * nl true a (tn93E3 πA πC πG πT (p2 / t) (trV / t))
+      + tnK3 πA πC πG πT * nl true a (tn93E1 πA πC πG πT (trV / t)) := by
+    have := tn93_combo_ge true ha hA hC hG hT he1 he2 he3
+    have : 0 ≤ p1 / t + p2 / t + trV / t := by positivity
+    linarith
+  have hsum' : πA * πG + πC * πT ≠ 0 := by positivity
+  unfold Gen.tn93Distance
+  unfold nl tnK1 tnK2 tnK3 tn93E1 tn93E2 tn93E3 at *
+  real_like at *
+  simp only [Bool.false_eq_true, if_false, if_true, decide_eq_true_eq] at *
+  all_goals ring_nf at he1 he2 he3 hS ⊢
+  all_goals est_guard [he1, he2, he3]
+  all_goals est_close hS
+
+/-! ### every finite corrected distance is at least the observed proportion of differences -/
+
+theorem jc_ge_pdist (g : Bool) (a d t : ℝ) (ha : 0 < a) (hd : 0 ≤ d) (ht : 0 < t) (hp : d / t < 3 / 4) :
+    d / t ≤ Gen.jcDistance g a d t := by
+  cases g
+  · rw [jc_eq_published a d t hd ht hp]; simpa using jcS_ge false ha hp
+  · rw [jc_gamma_eq_published a d t ha hd ht hp]; simpa using jcS_ge true ha hp
+
+theorem k2p_ge_pdist (g : Bool) (a trS trV t : ℝ) (ha : 0 < a) (hP : 0 ≤ trS) (hQ : 0 ≤ trV) (ht : 0 < t)
+    (h1 : 0 < 1 - 2 * (trS / t) - trV / t) (h2 : 0 < 1 - 2 * (trV / t)) :
+    trS / t + trV / t ≤ Gen.k2pDistance g a trS trV t := by
+  cases g
+  · rw [k2p_eq_published a trS trV t hP hQ ht h1 h2]; simpa using k80S_ge false ha h1 h2
+  · rw [k2p_gamma_eq_published a trS trV t ha hP hQ ht h1 h2]; simpa using k80S_ge true ha h1 h2
+
+theorem f81_ge_pdist (g : Bool) (a πA πC πG πT d t : ℝ) (ha : 0 < a) (hd : 0 ≤ d) (ht : 0 < t)
+    (hb : 0 < tajimaNeiB πA πC πG πT) (h1 : 0 < 1 - d / t / tajimaNeiB πA πC πG πT) :
+    d / t ≤ Gen.f81Distance g a (Gen.f81Init πA πC πG πT) d t := by
+  cases g
+  · rw [f81_eq_published a πA πC πG πT d t hd ht hb h1]; simpa using f81S_ge false ha hb h1
+  · rw [f81_gamma_eq_published a πA πC πG πT d t ha hd ht hb h1]; simpa using f81S_ge true ha hb h1
+
+theorem f84_ge_pdist (g : Bool) (a πA πC πG πT trS trV t : ℝ) (ha : 0 < a)
+    (hA : 0 < πA) (hC : 0 < πC) (hG : 0 < πG) (hT : 0 < πT)
+    (hsum : πA + πC + πG + πT = 1) (hP : 0 ≤ trS) (hQ : 0 ≤ trV) (ht : 0 < t)
+    (h1 : 0 < 1 - trS / t / (2 * f84A πA πC πG πT)
+            - (f84A πA πC πG πT - f84B πA πC πG πT) * (trV / t) / (2 * f84A πA πC πG πT * f84C πA πC πG πT))
+    (h2 : 0 < 1 - trV / t / (2 * f84C πA πC πG πT)) :
+    trS / t + trV / t ≤ Gen.f84Distance g a (Gen.f84Init πA πC πG πT).1 (Gen.f84Init πA πC πG πT).2.1
+      (Gen.f84Init πA πC πG πT).2.2 trS trV t := by
+  cases g
+  · rw [f84_eq_published a πA πC πG πT trS trV t hA hC hG hT hsum hP hQ ht h1 h2]
+    simpa using f84S_ge false ha hA hC hG hT hsum h1 h2
+  · rw [f84_gamma_eq_published a πA πC πG πT trS trV t ha hA hC hG hT hsum hP hQ ht h1 h2]
+    simpa using f84S_ge true ha hA hC hG hT hsum h1 h2
+
+theorem tn93_ge_pdist (g : Bool) (a πA πC πG πT trS trV p1 p2 t : ℝ) (ha : 0 < a)
+    (hA : 0 < πA) (hC : 0 < πC) (hG : 0 < πG) (hT : 0 < πT) (hsum : πA + πC + πG + πT = 1)
+    (ht : 0 < t) (h1 : 0 ≤ p1) (h2 : 0 ≤ p2) (hv : 0 ≤ trV)
+    (he1 : 0 < tn93E1 πA πC πG πT (trV / t)) (he2 : 0 < tn93E2 πA πC πG πT (p1 / t) (trV / t))
+    (he3 : 0 < tn93E3 πA πC πG πT (p2 / t) (trV / t)) :
+    p1 / t + p2 / t + trV / t ≤ Gen.tn93Distance g a πA πC πG πT trS trV p1 p2 t := by
+  have hR : πA + πG ≠ 0 := by positivity
+  have hY : πC + πT ≠ 0 := by positivity
+  cases g
+  · rw [tn93_eq_published a πA πC πG πT trS trV p1 p2 t hA hC hG hT ht h1 h2 hv he1 he2 he3, tn93S_eq_nl a]
+    exact tn93_combo_ge false ha hA hC hG hT he1 he2 he3
+  · rw [tn93_gamma_eq_published a πA πC πG πT trS trV p1 p2 t ha hA hC hG hT hsum ht h1 h2 hv he1 he2 he3,
+      tn93GammaS_eq_nl a _ _ _ _ _ _ _ hR hY hsum]
+    exact tn93_combo_ge true ha hA hC hG hT he1 he2 he3
+
+/-- non-vacuity of the F84 / TN93 domains: equal frequencies, one transition and one transversion in ten sites -/
+example : (0 : ℝ) < tn93E1 (1/4) (1/4) (1/4) (1/4) (1/10) ∧ (0 : ℝ) < tn93E2 (1/4) (1/4) (1/4) (1/4) (1/10) (1/10) ∧
+    (0 : ℝ) < tn93E3 (1/4) (1/4) (1/4) (1/4) 0 (1/10) := by
+  unfold tn93E1 tn93E2 tn93E3
+  real_like
+  norm_num
+
+/-! ### no counted difference ⇒ distance 0 (every model, with and without gamma, any parameters) -/
+
+theorem estimator_zero_of_no_difference (g : Bool) (a t b A B C πA πC πG πT trS : ℝ) :
+    Gen.jcDistance g a 0 t = 0 ∧ Gen.k2pDistance g a 0 0 t = 0 ∧ Gen.f81Distance g a b 0 t = 0 ∧
+    Gen.f84Distance g a A B C 0 0 t = 0 ∧ Gen.tn93Distance g a πA πC πG πT trS 0 0 0 t = 0 ∧
+    Gen.pdistDistance (0 : ℝ) t = 0 ∧ Gen.rawdistDistance (0 : ℝ) = 0 := by
+  refine ⟨?_, ?_, ?_, ?_, ?_, ?_, ?_⟩
+  · unfold Gen.jcDistance; real_like; cases g <;> simp
+  · unfold Gen.k2pDistance; real_like; cases g <;> simp <;> norm_num
+  · unfold Gen.f81Distance; real_like; cases g <;> simp
+  · unfold Gen.f84Distance; real_like; cases g <;> simp <;> ring_nf
+  · unfold Gen.tn93Distance; real_like; cases g <;> simp
+  · unfold Gen.pdistDistance; real_like; simp
+  · unfold Gen.rawdistDistance; rfl
+
+end real
+
 end Gv.Props.C07
